@@ -7,7 +7,8 @@ import json, os, re, shutil, subprocess, sys, time
 prop, var, secs = sys.argv[1], sys.argv[2], sys.argv[3]
 checks = sys.argv[4:] or [prop]
 sid = "%s-%s" % (prop, var)
-src = "/tmp/mut/out/%s/%s" % (prop, var)
+BASE = os.environ.get("MUT_BASE", "/tmp/mut")
+src = "%s/out/%s/%s" % (BASE, prop, var)
 dst = "/verif/seeded/%s" % sid
 os.makedirs(dst, exist_ok=True)
 if os.path.isdir(src):
@@ -16,14 +17,14 @@ if os.path.isdir(src):
 meta_path = os.path.join(dst, "meta.json")
 meta = json.load(open(meta_path)) if os.path.exists(meta_path) else {}
 meta.update({"id": sid, "property": prop, "origin": "independent sub-agent given only the property text and a scratch worktree"})
-v = "/tmp/mut/verify/%s.txt" % sid
+v = "%s/verify/%s.txt" % (BASE, sid)
 if os.path.exists(v):
     t = open(v).read()
     m = re.search(r"RESULT clean_rc=(\d+) mut_rc=(\d+) pass=(\d*) fail=(\d*)", t)
     if m:
         meta["confirmed"] = {"demo_rc_unchanged_tree": int(m.group(1)), "demo_rc_with_change": int(m.group(2)),
                              "existing_tests_pass": int(m.group(3) or 0), "existing_tests_fail": int(m.group(4) or 0),
-                             "how": "tools/verify_mutant.sh in scratch worktree /tmp/mut/%s (apply, rebuild, make -C tests -k check, demo; then reverted)" % prop}
+                             "how": "tools/verify_mutant.sh in scratch worktree %s/%s (apply, rebuild, make -C tests -k check, demo; then reverted)" % (BASE, prop)}
 notes = open(os.path.join(dst, "notes.md")).read() if os.path.exists(os.path.join(dst, "notes.md")) else ""
 meta.setdefault("needs_to_manifest", "see notes.md")
 r = subprocess.run(["git", "-C", "/repo", "apply", os.path.join(dst, "patch.diff")])
